@@ -23,8 +23,9 @@ St(r) == [feats |-> AsSet(r.feats), label |-> r.label, uuid |-> r.uuid, blocks |
 
 (* the e2fsck run tune2fs asked for: marks the filesystem checked, may put back a feature the data still needs *)
 AfterFsckOK(m, a, op) ==
-   /\ a = [m EXCEPT !.valid = 1, !.errfs = 0, !.mntcount = 0, !.lastcheck = FakeNow, !.feats = a.feats]
+   /\ a = [m EXCEPT !.valid = 1, !.errfs = 0, !.mntcount = 0, !.lastcheck = FakeNow, !.feats = a.feats, !.uuid = a.uuid]
    /\ m.feats \subseteq a.feats /\ (a.feats \ m.feats) \subseteq FsckMayRestore(op)
+   /\ a.uuid \in FsckUuids(m)                                                  \* a filesystem without UUID is given one
 
 PropertyClauses(r) == r.fsck_after_rc = 0 /\ r.consistent = 1 /\ r.tree_equal = 1
 
